@@ -145,14 +145,18 @@ class Outcome(object):
 
 
 def run_assemble(vector, modules, **kw):
-    """Call vector.assemble(*modules) on live entity objects; never lets an exception escape."""
+    """Call vector.assemble(*modules) on live entity objects; never lets an exception escape.
+    warnings_as_errors=True runs the call the way errors.AssemblyWarning documents: with the warning turned into an error."""
     o = Outcome()
+    as_errors = kw.pop("warnings_as_errors", False)
     if _pending_timeout[0]:
         _pending_timeout[0] = False
         note_timeout()
     try:
         with warnings.catch_warnings(record=True) as caught:
             warnings.simplefilter("always")
+            if as_errors:
+                warnings.simplefilter("error", category=errors.AssemblyWarning)
             with watch():
                 rec = vector.assemble(*modules, **kw)
         o.kind = "product"
